@@ -111,6 +111,40 @@ func (c *contextQuery) Properties() queryProp {
 	return queryProps.Merge | queryProps.Position | queryProps.Count | queryProps.Cached
 }
 
+// startQuery hands a walk its first node. The walks that following:: and preceding:: run over
+// one subtree after the other used to be started by moving the context node of the whole
+// evaluation onto the subtree, which every operand or argument evaluated afterwards then saw
+// as its context node.
+type startQuery struct {
+	node NodeNavigator
+	done bool
+}
+
+func (s *startQuery) Select(iterator) NodeNavigator {
+	if s.done {
+		return nil
+	}
+	s.done = true
+	return s.node.Copy()
+}
+
+func (s *startQuery) Evaluate(iterator) interface{} {
+	s.done = false
+	return s
+}
+
+func (s *startQuery) Clone() query {
+	return &startQuery{node: s.node}
+}
+
+func (s *startQuery) ValueType() resultType {
+	return xpathResultType.NodeSet
+}
+
+func (s *startQuery) Properties() queryProp {
+	return queryProps.Merge
+}
+
 type absoluteQuery struct {
 	count int
 }
@@ -542,10 +576,9 @@ func (f *followingQuery) Select(t iterator) NodeNavigator {
 				if node.NodeType() == AttributeNode && node.MoveToParent() {
 					// the descendants of the owner element follow its attributes in document order
 					q = &descendantQuery{
-						Input:     &contextQuery{},
+						Input:     &startQuery{node: node.Copy()},
 						Predicate: f.Predicate,
 					}
-					t.Current().MoveTo(node)
 				}
 				f.iterator = func() NodeNavigator {
 					for {
@@ -557,10 +590,9 @@ func (f *followingQuery) Select(t iterator) NodeNavigator {
 							}
 							q = &descendantQuery{
 								Self:      true,
-								Input:     &contextQuery{},
+								Input:     &startQuery{node: node.Copy()},
 								Predicate: f.Predicate,
 							}
-							t.Current().MoveTo(node)
 						}
 						if node := q.Select(t); node != nil {
 							f.posit = q.posit
@@ -648,10 +680,9 @@ func (p *precedingQuery) Select(t iterator) NodeNavigator {
 							}
 							q = &descendantQuery{
 								Self:      true,
-								Input:     &contextQuery{},
+								Input:     &startQuery{node: node.Copy()},
 								Predicate: p.Predicate,
 							}
-							t.Current().MoveTo(node)
 						}
 						if node := q.Select(t); node != nil {
 							p.posit++
@@ -811,6 +842,10 @@ func (f *filterQuery) Select(t iterator) NodeNavigator {
 	if f.positmap == nil {
 		f.positmap = make(map[int]int)
 	}
+	// the predicate is evaluated with each candidate as the context node; afterwards the context
+	// node is the caller's again
+	ctx := t.Current().Copy()
+	defer func() { t.Current().MoveTo(ctx) }()
 	for {
 
 		node := f.Input.Select(t)
@@ -1350,11 +1385,13 @@ func (m *mergeQuery) Select(t iterator) NodeNavigator {
 			}
 			m.Child.Evaluate(t)
 			root = root.Copy()
+			ctx := t.Current().Copy()
 			t.Current().MoveTo(root)
 			var list []NodeNavigator
 			for node := m.Child.Select(t); node != nil; node = m.Child.Select(t) {
 				list = append(list, node.Copy())
 			}
+			t.Current().MoveTo(ctx)
 			i := 0
 			m.iterator = func() NodeNavigator {
 				if i >= len(list) {
